@@ -273,6 +273,109 @@ Proof.
 Qed.
 Print Assumptions tokenize_units.
 
+(* ---------- the lines of these tokens ---------- *)
+Lemma lf_not_identchar c : is_identchar c = true -> aeq c lf = false.
+Proof. intros H. destruct (aeq c lf) eqn:E; [|reflexivity]. unfold aeq in E. apply Ascii.eqb_eq in E. subst c. vm_compute in H. discriminate. Qed.
+Lemma lf_not_numchar c : is_numchar c = true -> aeq c lf = false.
+Proof. intros H. destruct (aeq c lf) eqn:E; [|reflexivity]. unfold aeq in E. apply Ascii.eqb_eq in E. subst c. vm_compute in H. discriminate. Qed.
+Lemma lf_not_minus c : aeq c "-" = true -> aeq c lf = false.
+Proof. intros H. destruct (aeq c lf) eqn:E; [|reflexivity]. unfold aeq in E. apply Ascii.eqb_eq in E. subst c. vm_compute in H. discriminate. Qed.
+
+Lemma count_newlines_none l : Forall (fun c => aeq c lf = false) l -> count_newlines l = 0.
+Proof. induction 1 as [|c l Hc Hl IH]; [reflexivity|]. cbn [count_newlines]. rewrite Hc, IH. reflexivity. Qed.
+
+Lemma count_newlines_app' a b : count_newlines (a ++ b) = count_newlines a + count_newlines b.
+Proof. induction a as [|c r IH]; cbn [app count_newlines]; [reflexivity|]. rewrite IH. destruct (aeq c lf); lia. Qed.
+
+Lemma escape_no_newline s : count_newlines (escape s) = 0.
+Proof.
+  unfold escape. induction s as [|c s IH]; [reflexivity|]. cbn [flat_map]. rewrite count_newlines_app', IH. unfold esc1.
+  destruct (aeq c sq || aeq c dq || aeq c bs) eqn:E1.
+  { cbn [count_newlines]. apply orb_true_iff in E1. destruct E1 as [E1|E1]; [apply orb_true_iff in E1; destruct E1 as [E1|E1]|];
+      unfold aeq in *; apply Ascii.eqb_eq in E1; subst c; reflexivity. }
+  destruct (aeq c cr); [reflexivity|]. destruct (aeq c lf) eqn:E3; [reflexivity|]. destruct (aeq c tab); [reflexivity|].
+  cbn [count_newlines]. rewrite E3. reflexivity.
+Qed.
+
+Lemma token_text_no_newline sh : token_text sh -> count_newlines (snd sh) = 0.
+Proof.
+  destruct sh as [ty text]. unfold token_text. cbn [fst snd]. destruct ty; intros H; try contradiction.
+  - destruct H as (_ & Hall & _). apply count_newlines_none. eapply Forall_impl; [|exact Hall]. apply lf_not_identchar.
+  - subst. reflexivity.
+  - subst. reflexivity.
+  - destruct H as (s & ->). change (dq :: escape s ++ [dq]) with ([dq] ++ escape s ++ [dq]).
+    rewrite !count_newlines_app', escape_no_newline. reflexivity.
+  - destruct H as (Hshape & _). destruct text as [|c tl]; [destruct Hshape|]. destruct Hshape as (Hc & _ & Hall).
+    apply count_newlines_none. constructor.
+    + apply orb_true_iff in Hc. destruct Hc as [Hc|Hc]; [apply lf_not_minus | apply lf_not_numchar]; exact Hc.
+    + eapply Forall_impl; [|exact Hall]. apply lf_not_numchar.
+Qed.
+
+Lemma step_token_line fid st sh rest : token_text sh -> ts_suf st = snd sh ++ rest -> ws_first rest -> ts_sep st = true -> no_include st ->
+  exists st' tk, one_token fid st = TOk st' /\ ts_suf st' = rest /\ ts_toks st' = tk :: ts_toks st /\ tshape tk = sh /\ tk_fileid tk = fid /\
+                 no_include st' /\ tk_line tk = ts_line st /\ ts_line st' = ts_line st.
+Proof.
+  intros Ht Hs Hr Hsep Hni. pose proof (token_text_no_newline sh Ht) as Hnl.
+  destruct sh as [ty text]. unfold token_text in Ht. cbn [fst snd] in *.
+  destruct ty.
+  - eexists; eexists. split; [apply (step_ident fid st text rest Ht Hs Hr Hsep Hni)|]. repeat split.
+  - subst text. eexists; eexists. split; [apply (step_begin fid st rest Hs Hsep)|]. repeat split.
+  - subst text. eexists; eexists. split; [apply (step_end fid st rest Hs Hsep)|]. repeat split.
+  - destruct Ht.
+  - destruct Ht as [s ->]. eexists; eexists. split; [apply (step_string fid st s rest Hs Hr Hsep)|].
+    cbn [ts_suf ts_toks set_sep set_line push advance tk_line ts_line]. rewrite Hnl, N.add_0_r. repeat split.
+  - eexists; eexists. split; [apply (step_number fid st text rest Ht Hs Hr Hsep Hni)|]. repeat split.
+  - destruct Ht.
+Qed.
+
+(* the line of every token: the line breaks in the white space in front of it and of the tokens before it *)
+Fixpoint ulines (l : N) (us : list (bytes * shape)) : list N :=
+  match us with
+  | [] => []
+  | u :: r => (l + count_newlines (fst u)) :: ulines (l + count_newlines (fst u)) r
+  end.
+
+Lemma loop_units_lines fid : forall us st fuel, Forall unit_ok us -> ts_suf st = render us -> no_include st -> (2 * length us <= fuel)%nat ->
+  exists new, tok_loop fuel fid st = TOk (frev (ts_toks st) ++ new) /\ map tshape new = map snd us /\
+              map tk_line new = ulines (ts_line st) us.
+Proof.
+  induction us as [|u us IH]; intros st fuel Hok Hs Hni Hf.
+  - cbn [render flat_map] in Hs. exists []. destruct fuel; cbn [tok_loop]; rewrite Hs, app_nil_r; repeat split; constructor.
+  - inversion Hok as [|? ? [Hw Ht] Hrest]; subst. destruct u as [w sh]. cbn [fst snd] in *.
+    cbn [render flat_map fst snd] in Hs. fold (render us) in Hs. rewrite <- app_assoc in Hs.
+    destruct fuel as [|[|fuel]]; [cbn in Hf; lia | cbn in Hf; lia |].
+    pose proof (step_ws fid st w (snd sh ++ render us) Hw Hs (token_first_not_ws sh (render us) Ht)) as E1.
+    set (st1 := set_line (set_sep (advance st w (snd sh ++ render us)) true) (ts_line st + count_newlines w)) in *.
+    assert (S1 : ts_suf st1 = snd sh ++ render us) by reflexivity.
+    assert (Sep1 : ts_sep st1 = true) by reflexivity.
+    assert (Ni1 : no_include st1) by exact Hni.
+    destruct (step_token_line fid st1 sh (render us) Ht S1 (ws_first_render us Hrest) Sep1 Ni1)
+      as (st2 & tk & E2 & S2 & T2 & Sh2 & F2 & Ni2 & Ln2 & Ls2).
+    destruct (IH st2 fuel Hrest S2 Ni2 ltac:(cbn [length] in Hf; lia)) as (new & E3 & M3 & L3).
+    exists (tk :: new).
+    assert (Hne1 : ts_suf st <> []).
+    { rewrite Hs. destruct Hw as [Hne _]. destruct w; [congruence | discriminate]. }
+    assert (Hne2 : ts_suf st1 <> []).
+    { rewrite S1. pose proof (token_text_nonempty sh Ht). destruct (snd sh); [congruence | discriminate]. }
+    cbn [tok_loop]. destruct (ts_suf st) eqn:Q; [congruence|]. rewrite E1.
+    cbn [tok_loop]. destruct (ts_suf st1) eqn:Q1; [congruence|]. rewrite E2, E3, T2.
+    assert (T1 : ts_toks st1 = ts_toks st) by reflexivity. rewrite T1.
+    split; [|split].
+    + f_equal. rewrite !frev_rev'. cbn [rev]. rewrite <- app_assoc. reflexivity.
+    + cbn [map]. rewrite Sh2, M3. reflexivity.
+    + cbn [map ulines fst]. rewrite Ln2, L3, Ls2. reflexivity.
+Qed.
+
+Theorem tokenize_units_lines fid us : Forall unit_ok us ->
+  exists toks, tokenize_core fid (render us) = TOk toks /\ map tshape toks = map snd us /\ map tk_line toks = ulines 1 us.
+Proof.
+  intros H. unfold tokenize_core.
+  destruct (loop_units_lines fid us (mkTS [] (render us) 0 true 1 []) (S (length (render us))) H eq_refl eq_refl) as (new & E & M & L).
+  { pose proof (render_length us H). lia. }
+  exists new. cbn [ts_toks frev rev_append app] in E. auto.
+Qed.
+Print Assumptions tokenize_units_lines.
+
 (* ---------- the integer texts the writer produces are well-formed number tokens ---------- *)
 Lemma digits_fuel_chars upper base : base <= 16 -> 2 <= base -> forall fuel n,
   Forall (fun c => exists d, d < base /\ c = digit_char upper d) (digits_fuel fuel upper base n).
